@@ -7,8 +7,8 @@ def prop(pid, **kw):
 prop("C01",
      level="exploration",
      tests=[dict(name="TestC01", quick=1500, thorough=4000)],
-     rule="rapid-generated KV histories (1-40 steps: write transactions of 1-5 Put/PutWithTimestamp/Delete over 2-3 buckets and a drawn key universe (70% 2-7 keys; 25% 'wide' 8-30 keys and 5% 'bulk' 40-90 keys in one bucket, so that the order-8 B+ trees have several leaves and levels and range bounds fall between leaves; transactions of up to 8/20 calls there), reopen steps, Merge steps (4% of steps; Merge must not change what the model says); values of 0-24 text bytes or 20-60 binary bytes with runs of zeros; both RAM index modes x RWMode x loading mode x sync x segment size 120..8192) checked after every step against an ordered-map-with-TTL model by a systematic read battery (Get of every key, GetAll, PrefixScan of every key prefix, RangeScan, drawn RangeScan/PrefixSearchScan). A case is non-trivial when at least one segment rotation happened and the history deleted a previously written key or left an expired key next to a live one in the same bucket; distinct = distinct case JSON (hashed).",
-     assumptions=["expiry instants are at least 10^6 s away from the wall clock (valid until 2033)",
+     rule="rapid-generated KV histories (1-40 steps: write transactions of 1-5 Put/PutWithTimestamp/Delete over 2-3 buckets and a drawn key universe (70% 2-7 keys; 25% 'wide' 8-30 keys and 5% 'bulk' 40-90 keys in one bucket, so that the order-8 B+ trees have several leaves and levels and range bounds fall between leaves; transactions of up to 8/20 calls there), reopen steps, Merge steps (4% of steps; Merge must not change what the model says); values of 0-24 text bytes or 20-60 binary bytes with runs of zeros; about a third of the cases run under the build-tagged VIRTUAL CLOCK (the expiry test sees a time the case controls): explicitly stamped puts expire -2..+9 s around the virtual time and clock steps move it onto, one second before and one second after expiry instants that lie ahead, so reads happen exactly at now = timestamp+TTL and at now = timestamp+TTL-1 and pairs expire between two reads with no write in between; both RAM index modes x RWMode x loading mode x sync x segment size 120..8192) checked after every step against an ordered-map-with-TTL model by a systematic read battery (Get of every key, GetAll, PrefixScan of every key prefix, RangeScan, drawn RangeScan/PrefixSearchScan). A case is non-trivial when at least one segment rotation happened and the history deleted a previously written key or left an expired key next to a live one in the same bucket; distinct = distinct case JSON (hashed).",
+     assumptions=["without the virtual clock expiry instants are at least 10^6 s away from the wall clock (valid until 2033); with it only the expiry test (record.go IsExpired) reads the virtual time, records stamped by Put carry the wall clock and never expire in such a case",
                   "the reference model (model_test.go) is correct"])
 
 prop("C05",
@@ -41,7 +41,7 @@ prop("C07",
 prop("C02",
      level="exploration",
      tests=[dict(name="TestC02", quick=400, thorough=1200)],
-     rule="rapid-generated single-bucket KV histories in HintBPTSparseIdxMode (1-25 steps; write transactions of 1-4 (wide key universes of 8-30 keys, 25% of cases: 1-8) Put/PutWithTimestamp/Delete incl. exact-fill records; reopen 20% of steps; segment sizes 120/200/333 so most keys live in sealed segments; FileIO/MMap x loading mode x sync), checked after every step against the ordered-map-with-TTL model: Get of every key, GetAll, PrefixScan(p,0,ScanNoLimit) of every key prefix, RangeScan over drawn straddling bounds, including reads before the first write. Non-trivial: >=1 rotation and a deleted/expired key next to live keys.",
+     rule="rapid-generated single-bucket KV histories in HintBPTSparseIdxMode (1-25 steps, up to 60 with 1 KiB segments; a third of the cases under the virtual clock with clock steps onto / around expiry instants as in C01; write transactions of 1-4 (wide key universes of 8-30 keys, 25% of cases: 1-8) Put/PutWithTimestamp/Delete incl. exact-fill records; reopen 20% of steps; segment sizes 120/200/333 so most keys live in sealed segments; FileIO/MMap x loading mode x sync), checked after every step against the ordered-map-with-TTL model: Get of every key, GetAll, PrefixScan(p,0,ScanNoLimit) of every key prefix, RangeScan over drawn straddling bounds, including reads before the first write. Non-trivial: >=1 rotation and a deleted/expired key next to live keys.",
      assumptions=["single bucket, so bucket+key concatenations are unambiguous (the ambiguous case is C04)"])
 
 prop("C04",
@@ -129,7 +129,7 @@ prop("C13",
 prop("C03",
      level="exploration",
      tests=[dict(name="TestC03", quick=700, thorough=2000)],
-     rule="rapid-generated KV histories (puts, deletes, expired and live TTL puts over 3-8 keys (10% of cases 9-18 keys, so pages cross B+ tree leaves) on the alphabet {a,b,c}, reopen steps, Merge steps in the RAM index modes, all three index modes); then for every prefix of every written key ALL pages are enumerated: PrefixScan(prefix, offset, limit) for offset 0..n+1 and limit in {ScanNoLimit} U 1..n+1 (n = keys ever written under the prefix) and PrefixSearchScan(prefix, regexp, 0, limit) for every such limit; each page must equal live_prefixed[offset:offset+limit] of the model ('not found' only when that slice is empty). Non-trivial: under some prefix a deleted or expired key precedes a live key; inner_enumerations counts the pages checked.",
+     rule="rapid-generated KV histories (puts, deletes, expired and live TTL puts over 3-8 keys (10% of cases 9-18 keys, so pages cross B+ tree leaves) on the alphabet {a,b,c}, reopen steps, Merge steps in the RAM index modes, all three index modes; a third of the cases under the virtual clock (C01), so keys expire between the writes and the paging and some pages are read exactly at an expiry instant); then for every prefix of every written key ALL pages are enumerated: PrefixScan(prefix, offset, limit) for offset 0..n+1 and limit in {ScanNoLimit} U 1..n+1 (n = keys ever written under the prefix) and PrefixSearchScan(prefix, regexp, 0, limit) for every such limit; each page must equal live_prefixed[offset:offset+limit] of the model ('not found' only when that slice is empty). Non-trivial: under some prefix a deleted or expired key precedes a live key; inner_enumerations counts the pages checked.",
      assumptions=["limit 0 and limits below -1 are unspecified and not generated"],
      technique="model-based property testing (rapid) with exhaustive page enumeration per generated history")
 
